@@ -615,6 +615,11 @@ class SigGen:
             if not c2:
                 return None
             o = rng.choice(c2)
+            compk = o.comp and r.name != 'driver' and f['mode'] in ('dt', 'tb')
+            if compk and self.hz == 'dt_seq_element' and seq_ok and a.decl in ('explicit', 'lb0') and not o.noseq:
+                self.hz_done = True
+            elif compk:
+                seq_ok = False
             if seq_ok and a.decl in ('explicit', 'lb0') and rng.random() < 0.5 and not o.noseq:
                 self.features.add('scalar_element_actual_rank2')
                 lo = '0' if o.lb == 0 else '1'
